@@ -36,6 +36,7 @@ type GenParams struct {
 	// LargeEvery: every LargeEvery-th history uses bodies beyond 64 KiB (the readers' large-record path), several per
 	// segment and per scan batch, of equal or decreasing size
 	LargeEvery int
+	EagerOneIn int // one in EagerOneIn (re)opens uses EagerVersionMigrate (default 5)
 }
 
 var bigKeys = func() []string {
@@ -85,7 +86,11 @@ func (g *genState) drawOpts(first bool) *OptSpec {
 	} else if g.p.Versions {
 		o.NewVer = g.rng.Intn(3)
 		o.Keep = g.rng.Intn(2) == 0
-		o.Eager = g.rng.Intn(5) == 0
+		n := g.p.EagerOneIn
+		if n <= 0 {
+			n = 5
+		}
+		o.Eager = g.rng.Intn(n) == 0
 	} else {
 		o.NewVer = g.newver
 		o.Keep = g.rng.Intn(2) == 0
@@ -419,6 +424,45 @@ func genSweepHistory(id int, seed int64) *History {
 			}
 		}
 	}
+	h.Ops = append(h.Ops, Op{Op: "close"})
+	return h
+}
+
+// genMigrateHistory: a log of several segments in one format version (with a hole), then a migration to the other
+// version - EagerVersionMigrate at the next open, or the package-level Migrate while closed - and more use. For the
+// crash checks: a migration rewrites every segment (log and index), steps that nothing else in a history reaches.
+func genMigrateHistory(id int, seed int64) *History {
+	rng := rand.New(rand.NewSource(seed*1000003 + int64(id)))
+	h := &History{ID: id, Keys: id&8 == 8, Times: id&16 == 16, Mono: true}
+	from := 1 + rng.Intn(2)
+	to := 3 - from
+	roll := int64(pick(rng, []int{60, 100, 150}))
+	h.Ops = append(h.Ops, Op{Op: "open", O: &OptSpec{Rollover: roll, NewVer: from}})
+	vid, t := 0, int64(1000)
+	next := int64(0)
+	pub := func(n int) {
+		op := Op{Op: "publish"}
+		for k := 0; k < n; k++ {
+			vid++
+			t += int64(rng.Intn(2))
+			op.Batch = append(op.Batch, MsgSpec{K: pick(rng, []string{"a", "b", "g", "n"}), V: vid, VL: pick(rng, []int{3, 10, 24}), T: t})
+		}
+		next += int64(n)
+		h.Ops = append(h.Ops, op)
+	}
+	for b := 0; b < 3+rng.Intn(2); b++ {
+		pub(1 + rng.Intn(3))
+	}
+	if rng.Intn(2) == 0 {
+		h.Ops = append(h.Ops, Op{Op: "delete", S: []int64{int64(rng.Intn(int(next)))}})
+	}
+	h.Ops = append(h.Ops, Op{Op: "close"})
+	if rng.Intn(2) == 0 {
+		h.Ops = append(h.Ops, Op{Op: "migrate", Arg: int64(to)}, Op{Op: "open", O: &OptSpec{Rollover: roll, NewVer: to, Recover: true}})
+	} else {
+		h.Ops = append(h.Ops, Op{Op: "open", O: &OptSpec{Rollover: roll, NewVer: to, Eager: true, Recover: rng.Intn(2) == 0}})
+	}
+	pub(1 + rng.Intn(2))
 	h.Ops = append(h.Ops, Op{Op: "close"})
 	return h
 }
